@@ -1,5 +1,5 @@
 PROP = dict(
-    modules=["Shangrla.Props.C04"],
+    modules=["Shangrla.Props.C04", "Shangrla.Props.C04Simp"],
     theorems=[
         # single-node lemmas (Appendix F)
         "Shangrla.C04.fba_sound", "Shangrla.C04.fba_min", "Shangrla.C04.valid_order_not_excluded",
@@ -19,9 +19,18 @@ PROP = dict(
         "Shangrla.C04.raire_true_gap", "Shangrla.C04.raire_sufficient_gap", "Shangrla.C04.raire_empty_iff_gap",
         "Shangrla.C04.wrong_winner_empty_gap", "Shangrla.C04.raire_no_exception_gap", "Shangrla.C04.raire_terminates_gap",
         "Shangrla.C04.raire_correct_gap", "Shangrla.C04.noGap_is_default",
+        # the second generator, simp_assertions.py (DESIGN 15.9): simple_IRV_assertions and sim_irv
+        "Shangrla.Simp.countBallots_spec", "Shangrla.Simp.pickMin_spec", "Shangrla.Simp.roundTallies_spec",
+        "Shangrla.Simp.simLoop_spec", "Shangrla.Simp.simLoop_total",
+        "Shangrla.C04.simple_members", "Shangrla.C04.simple_true", "Shangrla.C04.simple_fam",
+        "Shangrla.C04.simple_complete_iff", "Shangrla.C04.simple_sufficient",
+        "Shangrla.C04.simple_complete_wrong_winner", "Shangrla.C04.simple_complete_unique_winner",
+        "Shangrla.C04.sim_irv_valid", "Shangrla.C04.sim_irv_distinct_candidates", "Shangrla.C04.sim_irv_terminates",
+        "Shangrla.C04.irv_count_unique", "Shangrla.C04.sim_irv_no_ties", "Shangrla.C04.sim_then_simple",
+        "Shangrla.C04.simple_complete_competing", "Shangrla.C04.simple_complete_raire",
     ],
-    groups={"raire": (3000, 120000)},
-    design_ref="DESIGN.md section 5, C04; Appendix F",
+    groups={"raire": (3000, 120000), "simp": (3000, 40000)},
+    design_ref="DESIGN.md section 5, C04; Appendix F; sections 15.6, 15.9",
     assumptions=[
         "the model's main loop is fuelled; raire_terminates proves that raireFuel(C, winner) iterations always suffice and "
         "that no exception exit is reached, so the other theorems (stated for any fuel with a Res.ok result) apply; the "
@@ -31,5 +40,11 @@ PROP = dict(
         "false when the largest estimate on the frontier is inf (GapOK: true of `mx - lb <= agap` for every finite agap); "
         "the unsuffixed theorems are the agap = 0 instance; log=True only prints (correspondence: same result required)",
         "wrong_winner_empty / valid_order_not_excluded: ballots well formed (no candidate and no position twice)",
+        "simp_assertions.py (simple_*, sim_*): candidates duplicate-free (a repeated candidate has ONE dict entry that is "
+        "incremented once per occurrence: modelled literally, compared in group simp, excluded from the theorems by "
+        "hypothesis); simple_sufficient / simple_complete_wrong_winner: the reported winner is a candidate (no hypothesis "
+        "on runner_up); simple_complete_wrong_winner: ballots well formed; the model of sim_irv's while loop is fuelled with "
+        "len(candidates) iterations, sim_irv_terminates proves they are never used up; NEB winner tally = ballots whose "
+        "position 0 is the winner (the library's own definition, `ranking == 0`); the script's __main__ block is not modelled",
     ],
 )
